@@ -378,17 +378,18 @@ func runC16(c *vh.Ctx) {
 				ext2 := "None"
 				if len(exts) > 1 {
 					in["ech_extension_hello2"] = vh.Hex(exts[1])
-					ext2 = "(Some " + vh.Bytes(exts[1]) + ")"
+					ext2 = "(Some None)" // byte-identical to the first
 					if !bytes.Equal(exts[0], exts[1]) {
+						ext2 = "(Some (Some " + vh.Bytes(exts[1]) + "))"
 						c.Fail("grease-ech-hrr-changed/"+cand.name, "the GREASE ECH extension in the second ClientHello differs from the first", in, vh.Hex(exts[1]), vh.Hex(exts[0]))
 					}
 				}
-				if i%2 == 0 {
+				if i%30 == 0 {
 					c.OracleCase("oracle", fmt.Sprintf("(COracle %s %s %s %s)", cs, ls, vh.Bytes(exts[0]), ext2), "grease-ech-wf/"+key,
 						"the proven oracle predicate (well-formed outer ECH, candidate suite, 32-byte enc, candidate length + 16, identical after HRR) rejects the bytes on the wire", in, true)
 				}
-				// the model is compared on a quarter of the connections (byte strings are long)
-				if i%4 == 0 {
+				// the model is compared on every 15th connection (Coq elaborates 250-byte list literals slowly)
+				if i%15 == 0 {
 					c.Case("model", fmt.Sprintf("(CGrease %s %s %s %s %s)", cs, is, ls, vh.Bytes(exts[0]), ext2),
 						fmt.Sprintf("%s/%d", key, i), mode == 1, map[string]any{"parrot": cand.name, "server": modeName, "ech_extension": vh.Hex(exts[0])})
 				}
